@@ -6,7 +6,7 @@
    launch <cancelled> <closed> <noargs> <none|raw> <waiterr>   -> <spawned 0|1> <status>
    fate e:<code> | s:<sig>:<core 0|1>        -> <raw> <status the property asks for>
    env <buildid> <laneid> <taskid> <requested k=v;k=v|.> <inherit 0|1> <base list field> <controlfd hex|none>
-     -> rendered envp as list field (hex "key=value" entries)      (env_unrepaired: the construction before a51183e) *)
+     -> rendered envp as list field (hex "key=value" entries)      (env_v0: the construction before a51183e) *)
 let status_name = function Succeeded -> "Succeeded" | Failed -> "Failed" | Cancelled -> "Cancelled"
 let label_of_string s =
   match String.split_on_char ':' s with
@@ -50,8 +50,8 @@ let () =
         | _ -> failwith "fate" in
       dec_of_n (raw_of_fate ft) ^ " " ^ status_name (status_of_fate ft)
     | _ -> "ERR args");
-  register "env_unrepaired" (function [bid; lid; tid; req; inh; base; cfd] ->
-      let e = build_env_unrepaired (bytes_of_hex bid) (bytes_of_hex lid) (bytes_of_hex tid) (env_of_field req) (inh = "1")
+  register "env_v0" (function [bid; lid; tid; req; inh; base; cfd] ->
+      let e = build_env_v0 (bytes_of_hex bid) (bytes_of_hex lid) (bytes_of_hex tid) (env_of_field req) (inh = "1")
           (list_of_field base) (if cfd = "none" then None else Some (bytes_of_hex cfd)) in
       field_of_list (render e)
     | _ -> "ERR args");
